@@ -174,6 +174,8 @@ theorem C09_routing_from_metadata (enc : τ → ν → Enc) (m : Meta τ) (schem
       · simp at h
     simp only [getRoutingKey, routingKeyInfo, hcols, hp, hts, List.isEmpty_cons, Bool.not_false,
       Bool.false_eq_true, if_false, if_true]
+    rw [createRoutingKey_eq_core enc ⟨i :: is, ts, m.keyspace, m.table⟩ vals
+      (compositeLoop_key_bound enc vals (i :: is) ts [] _ (hloop []))]
     cases is with
     | nil =>
       unfold Spec.components at h
@@ -184,7 +186,7 @@ theorem C09_routing_from_metadata (enc : τ → ν → Enc) (m : Meta τ) (schem
         obtain ⟨col, hcol, he⟩ := encAt_of_component hc
         simp [typesAt, hcol] at hts
         subst hts
-        simp [createRoutingKey, he, Token.routingKey]
+        simp [createRoutingKeyCore, he, Token.routingKey]
       · simp at h
     | cons j js =>
       have hl : ∃ c1 c2 cs', cs = c1 :: c2 :: cs' := by
@@ -197,7 +199,7 @@ theorem C09_routing_from_metadata (enc : τ → ν → Enc) (m : Meta τ) (schem
           · simp at hcs
         · simp at h
       obtain ⟨c1, c2, cs', hcs⟩ := hl
-      simp only [createRoutingKey]
+      simp only [createRoutingKeyCore]
       rw [hloop []]
       subst hcs
       simp [Token.routingKey]
@@ -225,16 +227,18 @@ theorem C09_routing_from_schema (enc : τ → ν → Enc) (m : Meta τ) (names :
     | cons _ _ => rfl
   simp only [getRoutingKey, routingKeyInfo, hcols, hpk, hb, List.isEmpty_nil, Bool.not_true,
     Bool.false_eq_true, if_false]
+  rw [createRoutingKey_eq_core enc ⟨is, ts, m.keyspace, m.table⟩ vals
+    (compositeLoop_key_bound enc vals is ts [] _ (hloop []))]
   match is, cs, hlen, hclen, hloop, hsingle with
   | [], [], _, _, hloop, _ =>
-    simp only [createRoutingKey]
+    simp only [createRoutingKeyCore]
     rw [hloop []]; simp [Token.routingKey]
   | [i], [c], _, _, _, hsingle =>
     obtain ⟨t, hts, he⟩ := hsingle i c rfl rfl
     subst hts
-    simp [createRoutingKey, he, Token.routingKey]
+    simp [createRoutingKeyCore, he, Token.routingKey]
   | i :: j :: is', c1 :: c2 :: cs', _, _, hloop, _ =>
-    simp only [createRoutingKey]
+    simp only [createRoutingKeyCore]
     rw [hloop []]; simp [Token.routingKey]
   | [], _ :: _, h1, h2, _, _ => simp at h1 h2; omega
   | [_], [], h1, h2, _, _ => simp at h1 h2; omega
@@ -283,11 +287,90 @@ example : Routing.getRoutingKey toyEnc ⟨[⟨"v", 8⟩, ⟨"b", 2⟩, ⟨"a", 4
 example : Routing.getRoutingKey toyEnc ⟨[⟨"v", 8⟩, ⟨"id", 4⟩], [], "ks", "t"⟩ (some ["id"]) [[99], [7]] = .key (some [0, 0, 0, 7]) := by decide
 example : Routing.getRoutingKey toyEnc ⟨[⟨"v", 8⟩, ⟨"id", 4⟩], [], "ks", "t"⟩ (some ["id", "c"]) [[99], [7]] = .nokey := by decide
 
-/-- COUNTEREXAMPLE to totality (KF-C09-1): a statement `… SET v = ? WHERE id = ?` (key marker 1) executed with ONE bound value:
-    `createRoutingKey` indexes `values[1]` — a run-time panic on the real code (replay: `rkmx 4 1 q 1 1 0 0 2 | v bigint |
-    id int | 1 1 | i int64 99` ↦ crash). The routing theorems exclude it by requiring a value at every key marker. -/
-theorem C09_cex_short_values :
-    Routing.getRoutingKey toyEnc ⟨[⟨"v", 8⟩, ⟨"id", 4⟩], [1], "ks", "t"⟩ none [[99]] = .crash := by decide
+/-- REGRESSION (KF-C09-1, repaired by props/C09.fix-KF-C09-1.diff): a statement `… SET v = ? WHERE id = ?` (key marker 1)
+    executed with ONE bound value. The unrepaired `createRoutingKey` indexed `values[1]` - a run-time panic in the
+    caller's goroutine; now it is the error outcome (replay: `rkm 4 1 q 1 1 0 0 2 | v bigint | id int | 1 1 | i int64 99`
+    ↦ err:values). -/
+theorem C09_short_values_regression :
+    Routing.getRoutingKey toyEnc ⟨[⟨"v", 8⟩, ⟨"id", 4⟩], [1], "ks", "t"⟩ none [[99]] = .errValues := by decide
+
+section RoutingTotal
+open Routing
+variable {τ ν : Type}
+
+theorem typesAt_length (cols : List (Col τ)) : ∀ (is : List Nat) (ts : List τ), typesAt cols is = some ts → ts.length = is.length
+  | [], ts, h => by simp [typesAt] at h; subst h; rfl
+  | i :: is, ts, h => by
+    unfold typesAt at h
+    cases hc : cols[i]? with
+    | none => simp [hc] at h
+    | some c =>
+      cases hr : typesAt cols is with
+      | none => simp [hc, hr] at h
+      | some ts' =>
+        simp [hc, hr] at h; subst h
+        simp [typesAt_length cols is ts' hr]
+
+theorem byName_length (cols : List (Col τ)) : ∀ (ns : List String) (is : List Nat) (ts : List τ),
+    byName cols ns = some (is, ts) → ts.length = is.length
+  | [], is, ts, h => by simp [byName] at h; obtain ⟨h1, h2⟩ := h; subst h1; subst h2; rfl
+  | n :: ns, is, ts, h => by
+    unfold byName at h
+    cases hf : findBound n cols 0 with
+    | none => simp [hf] at h
+    | some p =>
+      obtain ⟨i, t⟩ := p
+      cases hr : byName cols ns with
+      | none => simp [hf, hr] at h
+      | some q =>
+        obtain ⟨is', ts'⟩ := q
+        simp [hf, hr] at h
+        obtain ⟨h1, h2⟩ := h; subst h1; subst h2
+        simp [byName_length cols ns is' ts' hr]
+
+/-- **Fewer bound values than key markers: an error, on both paths.** Whatever produced the routing info (the pk indexes
+    of the PREPARE answer or the schema metadata): if some partition-key marker has no bound value, `GetRoutingKey`
+    answers the error outcome - before marshalling anything, whatever the other values are. -/
+theorem C09_routing_short_values (enc : τ → ν → Enc) (m : Meta τ) (schema : Option (List String)) (vals : List ν)
+    (info : Info τ) (hinfo : routingKeyInfo m schema = .info info) (i : Nat) (hi : i ∈ info.indexes)
+    (hshort : vals.length ≤ i) : getRoutingKey enc m schema vals = .errValues := by
+  simp only [getRoutingKey, hinfo]
+  exact createRoutingKey_short enc info vals i hi hshort
+
+/-- **`GetRoutingKey` is total (no index panic), for EVERY statement shape and EVERY list of bound values** - shorter,
+    longer or of the right length: unless Marshal itself panics or the PREPARE answer is malformed (a partition-key
+    index that is no marker), the outcome is a key, no key, or an error. -/
+theorem C09_routing_total (enc : τ → ν → Enc) (m : Meta τ) (schema : Option (List String)) (vals : List ν)
+    (hen : ∀ t v, enc t v ≠ .crash) (hwf : routingKeyInfo m schema ≠ .crash) :
+    getRoutingKey enc m schema vals ≠ .crash := by
+  unfold getRoutingKey
+  cases hr : routingKeyInfo m schema with
+  | none => simp
+  | errMeta => simp
+  | crash => exact absurd hr hwf
+  | info info =>
+    simp only
+    apply createRoutingKey_no_crash enc info vals hen
+    unfold routingKeyInfo at hr
+    split at hr
+    · simp at hr
+    · split at hr
+      · split at hr
+        · rename_i ts hts
+          simp at hr; subst hr
+          simp [typesAt_length _ _ _ hts]
+        · simp at hr
+      · split at hr
+        · simp at hr
+        · split at hr
+          · rename_i is ts hb
+            simp at hr; subst hr
+            simp [byName_length _ _ _ _ hb]
+          · simp at hr
+
+example : Routing.getRoutingKey toyEnc ⟨[⟨"v", 8⟩, ⟨"id", 4⟩], [], "ks", "t"⟩ (some ["id"]) [[99]] = .errValues := by decide
+
+end RoutingTotal
 
 
 /-! ## name / index resolution between partition-key columns and bind markers (session.go routingKeyInfo, both paths) -/
